@@ -61,6 +61,13 @@ def judgeC18 (id rest impl : String) : Verdict :=
     oi := oracleC18 c (explicitOps c io) io && inert io io2?, om := oracleC18 c (explicitOps c mo) mo && inert mo mo2,
     nt := finishOkOps c.ops io && c.cfg.md.isSome }
 
+/-- the sink answers every write with a positive count or `Interrupted`: no write ever fails -/
+def neverFails (p : Policy) : Bool :=
+  p.failAt.isNone && p.zeroAt.isNone && p.script.all fun r => match r with
+    | .accept n => n > 0
+    | .interrupted => true
+    | .fail _ => false
+
 /-- C13: prefix, error iff a write failed, silence afterwards, transparency -/
 def oracleC13 (c : PCase) (a : PObs) (clean? : Option PObs) : Bool :=
   match clean? with
@@ -81,6 +88,9 @@ def oracleC13 (c : PCase) (a : PObs) (clean? : Option PObs) : Bool :=
           let delivered := a.file == full
           -- a write failed iff not everything was delivered (given the fault-free run succeeds)
           (if cleanOk then (isFinishOk r == delivered) else !isFinishOk r) &&
+          -- a sink that never fails a write (it only shortens or interrupts them) must be transparent: the finish
+          -- succeeds and delivers everything, however many interruptions there were
+          (!(cleanOk && neverFails c.policy) || (isFinishOk r && delivered)) &&
           n == a.file.length &&
           (match r, cr with
            | .stats v au d b, .stats v' au' d' b' => v == v' && au == au' && d == d' && b == b' && b == full.length
